@@ -345,6 +345,24 @@ class Fn:
             self._calls = out
         return self._calls
 
+    @property
+    def user_calls(self):
+        """calls not written inside the expansion of a dependency's macro (tracing, tokio::select!, ...)"""
+        out = []
+        for c in self.calls:
+            bt = (c.term.get("fsp") or {}).get("mbt", [])
+            dep = False
+            for m in bt:
+                k = m.split("::", 1)[0]
+                if k in LOCAL_CRATES:
+                    break
+                if k in ("tracing", "tracing_core", "log", "tokio", "lazy_static", "prometheus", "futures", "futures_util", "pin_project_lite"):
+                    dep = True
+                    break
+            if not dep:
+                out.append(c)
+        return out
+
     def calls_to(self, pattern, resolved=True):
         """calls whose callee def path matches regex `pattern` (search)"""
         rx = re.compile(pattern)
@@ -421,7 +439,7 @@ class Fn:
                     nm = c.name
                     follow = None
                     for pat in through_calls:
-                        if re.search(pat, nm):
+                        if re.search(pat, nm) or (c.path and re.search(pat, c.path)):
                             follow = op_base(c.args[0]) if c.args else None
                             break
                     if follow is None:
